@@ -14,6 +14,12 @@ package c09
 //                          referenced settings, references removed, settings
 //                          added that name removed ones) and unpacked with the
 //                          original as Env
+//   merge-field-options    (round 5) one Merge under 1-3 per-field options
+//                          (Field{Merge,Replace,Append,Prepend}Values; direct
+//                          paths, list positions, '*', '**' anywhere, several
+//                          names per option) next to any global policy, onto
+//                          operands in which the configured names occur at
+//                          several depths and below several sibling keys
 //   failed-unpack-target   Unpack of a configuration with exactly ONE failing
 //                          setting into map targets the caller owns (typed maps,
 //                          nil and pre-filled, nested, inline map of a struct,
@@ -35,7 +41,7 @@ import (
 	"verif/internal/model"
 )
 
-var wideKinds = []string{"through-reference", "spellings-then-remove", "copy-with-env", "failed-unpack-target"}
+var wideKinds = []string{"through-reference", "spellings-then-remove", "copy-with-env", "failed-unpack-target", "merge-field-options"}
 
 func widePart(res *harness.R, r *rand.Rand, idx int) part {
 	switch wideKinds[idx%len(wideKinds)] {
@@ -45,6 +51,8 @@ func widePart(res *harness.R, r *rand.Rand, idx int) part {
 		return genSpellingsThenRemove(res, r)
 	case "copy-with-env":
 		return genCopyWithEnv(res, r)
+	case "merge-field-options":
+		return genMergeFieldOptions(res, r)
 	default:
 		return genFailedUnpackTarget(res, r)
 	}
@@ -563,4 +571,182 @@ func genFailedUnpackTarget(res *harness.R, r *rand.Rand) part {
 		return ""
 	}
 	return p
+}
+
+// --- merge-field-options (round 5) ---
+
+var foPool = []string{"l", "x", "y", "m"}
+
+// foTree: the same few names at every depth; "l" holds lists, "x"/"y" objects,
+// "m" a primitive or an object; list elements carry the operand's tag so that
+// the order of a combined list shows which policy was applied.
+func foTree(r *rand.Rand, tag string, depth int) *model.Node {
+	d := model.Dict()
+	list := func() *model.Node {
+		l := model.List()
+		n := 1 + r.Intn(2)
+		for i := 0; i < n; i++ {
+			if depth < 2 && r.Intn(5) == 0 {
+				l.A = append(l.A, model.Dict().Set("l", model.List(model.P(tag+"e"))).Set("m", model.P(tag)))
+			} else {
+				l.A = append(l.A, model.P(fmt.Sprintf("%s%d", tag, i)))
+			}
+		}
+		return l
+	}
+	for _, k := range foPool {
+		if r.Intn(4) == 0 {
+			continue
+		}
+		switch {
+		case k == "l":
+			d.Set(k, list())
+		case k == "m" && (depth >= 2 || r.Intn(2) == 0):
+			d.Set(k, model.P(tag+"m"))
+		case k == "m":
+			d.Set(k, model.Dict().Set("l", list()).Set("m", model.P(tag)))
+		case depth >= 2:
+			d.Set(k, model.Dict().Set("l", list()))
+		default:
+			d.Set(k, foTree(r, tag, depth+1))
+		}
+	}
+	if len(d.D) == 0 {
+		d.Set("l", list())
+	}
+	return d
+}
+
+type foOpt struct {
+	policy int // 0 merge, 1 replace, 2 append, 3 prepend
+	names  []string
+}
+
+func (o foOpt) String() string {
+	return fmt.Sprintf("%s(%q)", []string{"FieldMergeValues", "FieldReplaceValues", "FieldAppendValues", "FieldPrependValues"}[o.policy], o.names)
+}
+
+func (o foOpt) option() ucfg.Option {
+	switch o.policy {
+	case 0:
+		return ucfg.FieldMergeValues(o.names...)
+	case 1:
+		return ucfg.FieldReplaceValues(o.names...)
+	case 2:
+		return ucfg.FieldAppendValues(o.names...)
+	}
+	return ucfg.FieldPrependValues(o.names...)
+}
+
+func genMergeFieldOptions(res *harness.R, r *rand.Rand) part {
+	a, b := foTree(r, "a", 0), foTree(r, "b", 0)
+	direct := func(n int) string {
+		var parts []string
+		for i := 0; i < n; i++ {
+			parts = append(parts, foPool[r.Intn(len(foPool))])
+		}
+		return strings.Join(parts, ".")
+	}
+	// a field name in one of the spellings the options take; tail = its last name
+	mkName := func(tail string) (string, bool) {
+		switch r.Intn(8) {
+		case 0:
+			return "**." + tail, true
+		case 1:
+			return "*." + tail, true
+		case 2:
+			return direct(1) + ".**." + tail, true
+		case 3:
+			return "**." + direct(1) + "." + tail, true
+		case 4:
+			return direct(1+r.Intn(2)) + "." + tail, false
+		case 5:
+			if tail == "l" {
+				return "l.0", false
+			}
+			return tail, false
+		default:
+			return tail, false
+		}
+	}
+	nOpts := 1 + r.Intn(3)
+	var fos []foOpt
+	wild, plain := false, false
+	tail := []string{"l", "l", "m", "x"}[r.Intn(4)]
+	for i := 0; i < nOpts; i++ {
+		if i > 0 && r.Intn(2) == 0 {
+			// otherwise the same last name again, in another spelling, with another policy
+			tail = foPool[r.Intn(len(foPool))]
+		}
+		fo := foOpt{policy: r.Intn(4)}
+		nn := 1
+		if r.Intn(4) == 0 {
+			nn = 2
+		}
+		for j := 0; j < nn; j++ {
+			n, w := mkName(tail)
+			if w {
+				wild = true
+			} else {
+				plain = true
+			}
+			fo.names = append(fo.names, n)
+		}
+		fos = append(fos, fo)
+	}
+	class := "direct-only"
+	switch {
+	case wild && plain:
+		class = "wildcard+direct"
+	case wild:
+		class = "wildcard-only"
+	}
+	globals := [][]ucfg.Option{nil, {ucfg.ReplaceValues}, {ucfg.ReplaceArrValues}, {ucfg.AppendValues}, {ucfg.PrependValues}}
+	gi := r.Intn(len(globals))
+	atCreation := r.Intn(2) == 0 // the options are also given to NewFrom
+	mkOpts := func(withField bool) []ucfg.Option {
+		opts := append([]ucfg.Option{ucfg.PathSep(".")}, globals[gi]...)
+		if withField {
+			for _, fo := range fos {
+				opts = append(opts, fo.option())
+			}
+		}
+		return opts
+	}
+	call := func(pr *rand.Rand, withField bool) string {
+		copts := []ucfg.Option{ucfg.PathSep(".")}
+		if atCreation {
+			copts = mkOpts(withField)
+		}
+		c, err := ucfg.NewFrom(permGo(pr, a), copts...)
+		if err != nil {
+			return "newfrom-" + errClass(err)
+		}
+		if err := c.Merge(permGo(pr, b), mkOpts(withField)...); err != nil {
+			return errClass(err)
+		}
+		s, err := rawTop(c)
+		if err != nil {
+			return "unpack-" + errClass(err)
+		}
+		return s
+	}
+	var ds []string
+	for _, fo := range fos {
+		ds = append(ds, fo.String())
+	}
+	res.Ev("merge_field_options_cases", 1)
+	res.Ev("merge_field_options_cases_"+class, 1)
+	res.SetAdd("merge_field_options_shape", fmt.Sprintf("%s:options=%d:global=%d:at-creation=%v", class, len(fos), gi, atCreation))
+	// monitor: the per-field options decide something in this case (the same
+	// merge under the global policy alone gives other data)
+	var with, without string
+	harness.Safe(func() { with = call(rand.New(rand.NewSource(1)), true) })
+	harness.Safe(func() { without = call(rand.New(rand.NewSource(1)), false) })
+	if with != without {
+		res.Ev("merge_field_options_cases_where_the_options_change_the_result", 1)
+	}
+	desc := fmt.Sprintf("NewFrom(%s).Merge(%s) global #%d, %s, options also at creation=%v", a, b, gi, strings.Join(ds, ", "), atCreation)
+	run := func(pr *rand.Rand) string { return call(pr, true) }
+	return part{kind: "merge-field-options:" + class, desc: desc, runs: map[string]runner{"Merge+Unpack": run}, needSchedules: true}
 }
